@@ -184,7 +184,7 @@ func runC19Case(c *fw.Ctx, id string, cs c19Case) {
 		ctx := context.Background()
 		key := string([]byte{byte('a' + rr.Intn(26)), byte('0' + rr.Intn(10))})
 		opid := fmt.Sprintf("%s%s-%d-%d", sim.OpIDPrefix, id, g, k)
-		kinds := []string{"get", "put", "batch", "scan"}
+		kinds := []string{"get", "put", "batch", "scan", "get", "put", "batch", "scan", "cache-regions"}
 		rec.kind = kinds[rr.Intn(len(kinds))]
 		if cs.Point == "scanner-open" {
 			rec.kind = "scan"
@@ -214,6 +214,9 @@ func runC19Case(c *fw.Ctx, id string, cs c19Case) {
 					}
 				}
 			}
+		case "cache-regions":
+			rec.err = client.CacheRegions([]byte("t"))
+			c.Count("cache_regions_calls", 1)
 		case "scan":
 			s, _ := hrpc.NewScanStr(ctx, "t", hrpc.NumberOfRows(1), hrpc.Attribute("opid", []byte(opid)))
 			sc := client.Scan(s)
@@ -288,7 +291,7 @@ func runC19Case(c *fw.Ctx, id string, cs c19Case) {
 	// back-off sleep may finish it: the largest here is well below 3s)
 	allBack := within(8*time.Second, wg.Wait)
 	close(stopIssuing)
-	tBack := time.Now()
+	_ = tClose
 	if !allBack {
 		n := 0
 		mu.Lock()
@@ -334,21 +337,31 @@ func runC19Case(c *fw.Ctx, id string, cs c19Case) {
 	if !within(3*time.Second, client.Close) {
 		c.Violate(id, "close:second-close-blocks", cs.String(), cs.String())
 	}
-	// quiescence: settle, then nothing may happen any more
+	// quiescence: settle, then nothing may happen any more. Everything is
+	// observed on the client's side of the connections (what the client did),
+	// never by when the simulated server got round to reading it: bytes written
+	// before Close may be read by a starved server goroutine much later.
 	time.Sleep(60 * time.Millisecond)
+	tQuiet := time.Now()
 	mark := cl.Log.Len()
 	dl.mu.Lock()
 	nd := len(dl.recs)
 	dl.mu.Unlock()
 	time.Sleep(150 * time.Millisecond)
 	for _, e := range cl.Log.Snapshot()[mark:] {
-		switch e.Kind {
-		case "dial", "zk", "meta-lookup", "frame":
-			f := "close:activity-after-close:" + e.Kind
-			c.Violate(id, f, fmt.Sprintf("%s event (%s %s %s) %v after every call had returned: %s", e.Kind, e.Server, e.Method, e.Info,
-				(e.T-(tBack.Sub(tClose)+cl.Log.Now()-cl.Log.Now())).Round(time.Millisecond), cs), cs.String())
+		if e.Kind == "zk" { // logged synchronously inside the client's own call
+			c.Violate(id, "close:activity-after-close:zk", fmt.Sprintf("ZooKeeper lookup (%s) after every call had returned: %s", e.Info, cs), cs.String())
 		}
 	}
+	dl.mu.Lock()
+	for _, rec := range dl.recs {
+		if rec.conn != nil {
+			if n := rec.conn.WritesOKAfter(tQuiet); n > 0 {
+				c.Violate(id, "close:activity-after-close:request-written", fmt.Sprintf("%d successful write(s) on the connection to %s more than 60ms after Close and every call had returned: %s", n, rec.addr, cs), cs.String())
+			}
+		}
+	}
+	dl.mu.Unlock()
 	dl.mu.Lock()
 	recs := append([]*dialRec{}, dl.recs...)
 	dl.mu.Unlock()
@@ -408,8 +421,8 @@ func init() {
 			"{right before a dial (establisher held at its log statement until Close returned), during a dial, during the " +
 			"region probe, during a meta lookup, during retry back-off, with ZooKeeper failing, with a scanner open, during " +
 			"batches} or at a seeded instant; judged: Close returns, calls in flight and later calls return with the " +
-			"client-closed error, all dialled connections closed at quiescence, no dial / ZooKeeper / meta / request activity " +
-			"after all calls returned, no client goroutine left, second Close harmless. distinct = close point x callers x " +
+			"client-closed error, all dialled connections closed at quiescence, no dial, no ZooKeeper lookup and no successful write on any connection " +
+			"after all calls returned (observed on the client's side), no client goroutine left, second Close harmless. distinct = close point x callers x " +
 			"seed; all non-trivial",
 		Assumptions: []string{"quiescence = all calls returned + 60 ms settle; the observation window after it is 150 ms"},
 		Plan: func(tier string) fw.Plan {
